@@ -1278,7 +1278,7 @@ def _run(chk, im, mp, corpus):
         add('grid', 'conv ' + encode_score(sc), line, 'key x mode x transposition / step x alter x octave')
     # ---- the quantifier's class: correspondence + oracle; every k-th case also as .mxl
     rng = chk.subrng('valid')
-    nvalid = chk.n(2500, 60000)
+    nvalid = chk.n(2500, 40000)
     for i in range(nvalid):
         force = None
         if i % 10 == 0:   # the F-C05-4 neighbourhood: several parts with tempo marks
@@ -1298,7 +1298,7 @@ def _run(chk, im, mp, corpus):
                         'oracle': 'holds' if bad == [] else str(bad)[:200]})
     # ---- off-class scores (correspondence only)
     rng = chk.subrng('extras')
-    for i in range(chk.n(1500, 40000)):
+    for i in range(chk.n(1500, 25000)):
         sc, hist = gen_valid(rng)
         names = []
         for _ in range(rng.choice([1, 1, 1, 2, 3])):
@@ -1311,7 +1311,7 @@ def _run(chk, im, mp, corpus):
             set(names) | {'result:' + (line.split()[1] if line.startswith('err') else 'ok')})
     # ---- malformed scores: documented exception classes
     rng = chk.subrng('malformed')
-    for i in range(chk.n(600, 12000)):
+    for i in range(chk.n(600, 8000)):
         sc, hist = gen_valid(rng)
         r = malform(rng, sc)
         if r is None:
